@@ -77,7 +77,8 @@ def run(prop, tier, seed, args):
     mod = importlib.import_module(modname)
     rep = fw.Report(prop, tier, seed)
     import shutil
-    shutil.rmtree(os.path.join(VERIF_ROOT, "replays", prop), ignore_errors=True)  # replay files belong to one run
+    shutil.rmtree(os.path.join(VERIF_ROOT, "replays", prop) if os.path.realpath(fw.REPO_ROOT) == "/repo" else os.path.join("/tmp", "verif-scratch-replays", prop),
+                  ignore_errors=True)  # replay files belong to one run
     findings, fixed = fw.load_known(prop)
     E = Engine(fw.REPO_ROOT)
     if hasattr(mod, "setup_engine"):
